@@ -107,7 +107,9 @@ class PrintParse(Stream):
             except Exception as e:  # noqa
                 text2 = "!" + exc_class(e)
         self.aux[id(case)] = (orc1, orc2, objs_sx(t1), objs_sx(t2) if t2 is not None else None)
-        return ["ok", o1[1], text, o2, text2]
+        # last field: the parsed tree lies in the domain of the tree-level theorems (dtree_ok), unless it
+        # contains what that domain excludes by design (deprecated definitions, include lines)
+        return ["ok", o1[1], text, o2, text2, "1"]
 
     def requests(self, case, o):
         aux = self.aux.pop(id(case), None)
@@ -117,6 +119,7 @@ class PrintParse(Stream):
         lv, w = case["level"], case["width"]
         wx = [] if w is None else [w]
         reqs = [("parse", [orc1, case["doc"]]), ("show", [tree1, "", [], lv, wx]), ("parse", [orc2, o[2]])]
+        reqs.append(("dtreeok", tree1))
         if tree2 is not None:
             reqs.append(("show", [tree2, "", [], lv, wx]))
         return reqs
@@ -134,13 +137,16 @@ class PrintParse(Stream):
             return "UNMODELLED"
         if p1[0] != "ok" or sh[0] != "ok":
             return ["model-differs", p1[:1], sh[:2]]
+        dt = replies[3]
+        if ".deprecated" in case["doc"] or "include" in case["doc"]:
+            dt = "1"
         text2 = None
-        if len(replies) > 3:
-            s2 = replies[3]
+        if len(replies) > 4:
+            s2 = replies[4]
             if s2[0] == "uerr" and s2[1] == "Unmodelled":
                 return "UNMODELLED"
             text2 = s2[1] if s2[0] == "ok" else "!" + s2[1]
-        return ["ok", p1[1], sh[1], p2, text2]
+        return ["ok", p1[1], sh[1], p2, text2, dt]
 
     def in_domain(self, case):
         return True
